@@ -302,6 +302,10 @@ def _as_bag(eng, recv, elem: V, name_hint=None):
 # ------------------------------------------------------------------ list / bag
 def m_append(reg, eng, st, recv, args, kwargs, node, rexpr):
     (e,) = args
+    if recv.t == ("str",) and e.t == ("str",) and isinstance(rexpr, ast.Name) and eng.declared_type(rexpr.id) == ("str",):
+        # list of string pieces modelled by its concatenation (declared local of type Str)
+        _store(eng, st, rexpr, vstr(z3.Concat(recv.x, e.x)), recv)
+        return [(st, VNONE)]
     if recv.t[0] == "list":
         dt = eng.declared_type(rexpr.id) if isinstance(rexpr, ast.Name) else None
         if dt is None:
@@ -482,6 +486,15 @@ def m_get(reg, eng, st, recv, args, kwargs, node, rexpr):
 # ------------------------------------------------------------------ str
 def m_startswith(reg, eng, st, recv, args, kwargs, node, rexpr):
     (p,) = args
+    if p.t[0] == "opt" and p.t[1] == ("str",):
+        # str.startswith(None) is a TypeError
+        if not eng.spec:
+            s_none = st.fork()
+            s_none.assume(p.x[0])
+            if feasible(s_none):
+                eng.do_raise(s_none, "TypeError", getattr(node, "lineno", 0))
+            st.assume(znot(p.x[0]))
+        p = p.x[1]
     if p.t[0] != "str":
         raise OutOfSubset("startswith non-str")
     return [(st, vbool(z3.PrefixOf(p.x, recv.x)))]
@@ -494,6 +507,8 @@ def m_endswith(reg, eng, st, recv, args, kwargs, node, rexpr):
 
 def m_join(reg, eng, st, recv, args, kwargs, node, rexpr):
     (o,) = args
+    if o.t == ("str",) and z3.is_string_value(z3.simplify(recv.x)) and z3.simplify(recv.x).as_string() == "":
+        return [(st, o)]   # "".join(<pieces modelled by their concatenation>)
     if o.t[0] in ("list", "tuple"):
         if not o.x:
             return [(st, vstr(""))]
@@ -529,6 +544,6 @@ METHODS = {
             "intersection": m_intersection, "union": m_union},
     "emptyset": {"add": m_add, "update": m_update},
     "dict": {"items": m_items, "keys": m_keys, "values": m_values, "get": m_get},
-    "str": {"startswith": m_startswith, "endswith": m_endswith, "join": m_join, "split": m_split,
+    "str": {"append": m_append, "startswith": m_startswith, "endswith": m_endswith, "join": m_join, "split": m_split,
             "replace": m_str_replace, "strip": m_strip},
 }
